@@ -56,4 +56,10 @@ CHECKS = {
         "text": "For every fixed and length-dependent layout of the bound, every data length from 1 byte to 3 bytes beyond what the layout needs, every LEN value and both parse_bad_pkts settings, the generator's behaviour is classified (clean / flagged / withheld / raised) and compared with the reference: clean iff well-formed and exactly consumed, otherwise flagged-or-raised (or withheld-or-raised).",
         "note": "'Flagged' means any warning emitted while the packet is processed (not a message match).",
     },
+    "C05": {
+        "level": "exploration",
+        "technique": "bounded-exhaustive enumeration of container trees x criteria assignments x abstract flags x nesting x document order, each run on the full APID x SEL packet product through parse_ccsds_packet and the generator, against a reference container walk",
+        "text": "Every tree of the bound with every criteria assignment from a 7-element alphabet (including overlapping criteria and missing RestrictionCriteria), abstract flags, nested references, both document orders and both header namings is loaded; 16 packets steer into every branch, dead end and ambiguity; items, order, header/user_data views, partial data of unrecognized packets and skipping are compared with the reference walk.",
+        "note": "Documents that decode the same parameter twice on one path are enumerated but not judged (unspecified).",
+    },
 }
